@@ -97,6 +97,25 @@ pub fn generate(tier: Tier, rng: &mut Rng) -> Vec<Case> {
     }
     push(&Value::Function(Arc::new("f".into()), None), "function");
     push(&Value::List(Arc::new(vec![Value::Int(1), Value::Function(Arc::new("f".into()), None)])), "function");
+    // maps whose keys render to the same member name (1, 1u, '1'; true, 'true') where one of the
+    // colliding entries holds something that cannot be exported: the export fails whichever entry
+    // the map happens to yield first (several instances each: every HashMap has its own order)
+    {
+        let f = || Value::Function(Arc::new("f".into()), None);
+        let big = || Value::Duration(crate::wire::dur_from_ns(i64::MAX as i128 + 1).unwrap());
+        let mk = |es: Vec<(Key, Value)>| Value::Map(Map { map: Arc::new(es.into_iter().collect::<HashMap<Key, Value>>()) });
+        let s = |t: &str| Key::String(Arc::new(t.to_string()));
+        for _ in 0..12 {
+            for bad in [f(), big(), Value::List(Arc::new(vec![f()])), mk(vec![(s("x"), f())])] {
+                push(&mk(vec![(Key::Int(1), Value::Int(7)), (Key::Uint(1), bad.clone())]), "colliding-keys-unexportable");
+                push(&mk(vec![(Key::Int(1), bad.clone()), (Key::Uint(1), Value::Int(7))]), "colliding-keys-unexportable");
+                push(&mk(vec![(Key::Int(1), Value::Int(7)), (s("1"), bad.clone()), (Key::Uint(1), Value::Int(7))]), "colliding-keys-unexportable");
+                push(&mk(vec![(Key::Bool(true), bad.clone()), (s("true"), Value::Int(7))]), "colliding-keys-unexportable");
+                push(&Value::List(Arc::new(vec![mk(vec![(Key::Int(0), Value::Int(7)), (Key::Uint(0), bad.clone())])])), "colliding-keys-unexportable");
+                push(&mk(vec![(s("outer"), mk(vec![(Key::Uint(2), Value::Null), (Key::Int(2), bad.clone())]))]), "colliding-keys-unexportable");
+            }
+        }
+    }
     let n = match tier {
         Tier::Quick => 8000,
         Tier::Thorough => 600_000,
